@@ -584,13 +584,6 @@ def rule_pb_dead(ctx):
                         o = o.value
                     if isinstance(o, ast.Name):
                         return o.id, st.value
-        if isinstance(st, ast.AugAssign):
-            # `N op= e` / `N[...] op= e`: reads N and redefines it
-            t = st.target
-            if isinstance(t, ast.Subscript) and isinstance(t.slice, ast.Constant) and t.slice.value is Ellipsis:
-                t = t.value
-            if isinstance(t, ast.Name):
-                return t.id, ast.BinOp(left=ast.Name(id=t.id, ctx=ast.Load()), op=st.op, right=st.value)
         return None
 
     def reads(node, name):
@@ -608,8 +601,6 @@ def rule_pb_dead(ctx):
                     val = td[1]
                     inputs = [a for a in ast.walk(val)] if not (isinstance(st, ast.Expr)) else \
                         [n for a in list(val.args) + [k.value for k in val.keywords if k.arg != 'out'] for n in ast.walk(a)]
-                    if isinstance(st, ast.AugAssign):
-                        inputs = [ast.Name(id=name, ctx=ast.Load())]        # an augmented assignment reads its target
                     if any(isinstance(n, ast.Name) and n.id == name for n in inputs):
                         last.pop(name)
                     else:
